@@ -221,6 +221,12 @@ class Run:
                     **detail,
                 )
                 raise StopRun() from e
+            if where == "repo":
+                # the property promises no result for this call (setup of an excluded combination, an
+                # interleaved throw-away call, ...): an exception raised by rl4co ends the run quietly
+                self.probe(f"unpromised_exception:{type(e).__name__}@{f}:{func}")
+                self.log.add("unpromised_exception", type(e).__name__, f, func)
+                raise StopRun() from e
             raise
 
 
